@@ -8,6 +8,7 @@
 -/
 import PyndlProofs.WHSpec
 import PyndlProofs.NdlSpec
+import PyndlProofs.NdlCall
 
 set_option linter.unusedSectionVars false
 set_option linter.unusedSimpArgs false
@@ -821,10 +822,13 @@ theorem applyPolicyAll_outcomes_nodup {ι κ : Type} [DecidableEq ι] [Decidable
 
 /-- **`wh.wh` (real → binary) with a one-hot cue table = `ndl.ndl`, end to end.**
 
-    Hypotheses — of `ndlModel_eq_spec` (C01): `hm`, `hv` (header constants fit 32
-    bit), `hper : 2 ≤ events_per_temporary_file`, `hjob : 1 ≤ n_outcomes_per_job`
-    of the `ndl.ndl` call, `hfit` (the 32-bit limits of the binary event format;
-    `ndl.ndl` raises outside), `hp` the duplicate policy accepts the events;
+    Hypotheses — of `ndlCall_eq_spec` (C01): `hm`, `hv` (header constants fit 32
+    bit), `hne` at least one event (on a file with ZERO events `ndl.ndl` raises
+    `IOError` while `wh.wh` returns: the two calls do NOT agree there),
+    `hcfg : CfgOK` (`2 ≤ events_per_temporary_file < 2³²`, `1 ≤ n_outcomes_per_job`,
+    OpenMP: `n_outcomes + n_outcomes_per_job < 2³²`) of the `ndl.ndl` call, `hfit`
+    (the 32-bit limits of the binary event format; `ndl.ndl` raises outside),
+    `hp` the duplicate policy accepts the events;
     of `wh_r2b_end_to_end` (C08): `hc : 1 ≤ n_outcomes_per_job` of the `wh.wh`
     call, every cue has a row in the table (here: `hS`, `hSn`); and of C14:
     `hoh` the table is one-hot with dimension map `σ`, injective (`hinj`) on a
@@ -836,18 +840,20 @@ theorem applyPolicyAll_outcomes_nodup {ι κ : Type} [DecidableEq ι] [Decidable
     (o, c) — for EVERY outcome name `o` and every cue `c ∈ S`; and a dimension
     label whose position is the image of no cue of the events reads 0. -/
 theorem whModel_r2b_onehot_eq_ndl (magic version : Nat) (hm : magic < 4294967296) (hv : version < 4294967296)
-    (cfg : NdlCfg) (hper : 2 ≤ cfg.perFile) (hjob : 1 ≤ cfg.perJob) (eta β₁ β₂ lam : R)
+    (cfg : NdlCfg) (eta β₁ β₂ lam : R)
     (ct : VecTable R) (σ : String → Nat) (chunk : Nat) (hc : 1 ≤ chunk)
-    (es es' : List (Event String String)) (hp : applyPolicyAll cfg.policy es = some es') (hfit : Fits32 es)
+    (es es' : List (Event String String)) (hne : es ≠ [])
+    (hcfg : CfgOK cfg (countNames es).2.length)
+    (hp : applyPolicyAll cfg.policy es = some es') (hfit : Fits32 es)
     (hoh : OneHotTable ct σ) (S : String → Prop) (hSn : ∀ c, S c → c ∈ ct.names)
     (hinj : ∀ a b, S a → S b → σ a = σ b → a = b) (hS : ∀ e ∈ es, ∀ c ∈ e.cues, S c) :
     ∃ w wn, whModel .r2b cfg.policy eta β₁ β₂ lam (some ct) none chunk none es = .ok w ∧
-      ndlModel magic version cfg 1 β₁ β₂ lam none es = .ok (wn, es.length) ∧
+      ndlCall magic version cfg 1 β₁ β₂ lam none es = .ok (wn, es.length) ∧
       (∀ o c dl, S c → dl ∈ ct.dims → ct.dims.idxOf dl = σ c → w.get o dl = wn.get o c) ∧
       (∀ o dl, (∀ e ∈ es, ∀ c ∈ e.cues, σ c ≠ ct.dims.idxOf dl) → w.get o dl = 0) := by
   have htab : ∀ e ∈ es, ∀ c ∈ e.cues, c ∈ ct.names := fun e he c hc => hSn c (hS e he c hc)
   obtain ⟨w, hw, hget⟩ := whModel_r2b_get cfg.policy eta β₁ β₂ lam ct chunk hc es es' htab hp
-  obtain ⟨wn, hwn, hgetn⟩ := ndlModel_eq_spec magic version hm hv cfg hper hjob 1 β₁ β₂ lam es es' hp hfit
+  obtain ⟨wn, hwn, hgetn⟩ := ndlCall_eq_spec magic version hm hv cfg 1 β₁ β₂ lam es es' hne hcfg hp hfit
   have hS' := applyPolicyAll_cues cfg.policy es es' hp S hS
   have htab' := applyPolicyAll_cues cfg.policy es es' hp (· ∈ ct.names) htab
   refine ⟨w, wn, hw, hwn, ?_, ?_⟩
@@ -871,19 +877,21 @@ theorem whModel_r2b_onehot_eq_ndl (magic version : Nat) (hm : magic < 4294967296
     (o, c), for every `o ∈ T` and EVERY cue name `c`; unused outcome dimensions
     read 0. -/
 theorem whModel_b2r_onehot_eq_ndl (magic version : Nat) (hm : magic < 4294967296) (hv : version < 4294967296)
-    (cfg : NdlCfg) (hper : 2 ≤ cfg.perFile) (hjob : 1 ≤ cfg.perJob) (eta β₁ β₂ lam : R)
+    (cfg : NdlCfg) (eta β₁ β₂ lam : R)
     (ot : VecTable R) (τ : String → Nat) (chunk : Nat) (hc : 1 ≤ chunk)
-    (es es' : List (Event String String)) (hp : applyPolicyAll cfg.policy es = some es') (hfit : Fits32 es)
+    (es es' : List (Event String String)) (hne : es ≠ [])
+    (hcfg : CfgOK cfg (countNames es).2.length)
+    (hp : applyPolicyAll cfg.policy es = some es') (hfit : Fits32 es)
     (hoh : OneHotTable ot τ) (T : String → Prop) (hTn : ∀ o, T o → o ∈ ot.names)
     (hinj : ∀ a b, T a → T b → τ a = τ b → a = b) (hT : ∀ e ∈ es, ∀ o ∈ e.outcomes, T o)
     (hu : ∀ e ∈ es', e.outcomes.Nodup) :
     ∃ w wn, whModel .b2r cfg.policy eta β₁ β₂ lam none (some ot) chunk none es = .ok w ∧
-      ndlModel magic version cfg 1 eta eta 1 none es = .ok (wn, es.length) ∧
+      ndlCall magic version cfg 1 eta eta 1 none es = .ok (wn, es.length) ∧
       (∀ o c dl, T o → dl ∈ ot.dims → ot.dims.idxOf dl = τ o → w.get dl c = wn.get o c) ∧
       (∀ dl c, (∀ e ∈ es, ∀ o ∈ e.outcomes, τ o ≠ ot.dims.idxOf dl) → w.get dl c = 0) := by
   have htab : ∀ e ∈ es, ∀ o ∈ e.outcomes, o ∈ ot.names := fun e he o ho => hTn o (hT e he o ho)
   obtain ⟨w, hw, hget⟩ := whModel_b2r_get cfg.policy eta β₁ β₂ lam ot chunk hc es es' htab hp
-  obtain ⟨wn, hwn, hgetn⟩ := ndlModel_eq_spec magic version hm hv cfg hper hjob 1 eta eta 1 es es' hp hfit
+  obtain ⟨wn, hwn, hgetn⟩ := ndlCall_eq_spec magic version hm hv cfg 1 eta eta 1 es es' hne hcfg hp hfit
   have hT' := applyPolicyAll_outcomes cfg.policy es es' hp T hT
   have htab' := applyPolicyAll_outcomes cfg.policy es es' hp (· ∈ ot.names) htab
   refine ⟨w, wn, hw, hwn, ?_, ?_⟩
@@ -903,22 +911,24 @@ theorem whModel_b2r_onehot_eq_ndl (magic version : Nat) (hm : magic < 4294967296
     at position `τ o`, dimension label at position `σ c`) equals the `ndl.ndl`
     matrix at (o, c) for every `o ∈ T`, `c ∈ S`. -/
 theorem whModel_r2r_onehot_eq_ndl (magic version : Nat) (hm : magic < 4294967296) (hv : version < 4294967296)
-    (cfg : NdlCfg) (hper : 2 ≤ cfg.perFile) (hjob : 1 ≤ cfg.perJob) (eta β₁ β₂ lam : R)
+    (cfg : NdlCfg) (eta β₁ β₂ lam : R)
     (ct ot : VecTable R) (σ τ : String → Nat) (chunk : Nat) (hc : 1 ≤ chunk)
-    (es es' : List (Event String String)) (hp : applyPolicyAll cfg.policy es = some es') (hfit : Fits32 es)
+    (es es' : List (Event String String)) (hne : es ≠ [])
+    (hcfg : CfgOK cfg (countNames es).2.length)
+    (hp : applyPolicyAll cfg.policy es = some es') (hfit : Fits32 es)
     (hohc : OneHotTable ct σ) (hoho : OneHotTable ot τ)
     (S T : String → Prop) (hSn : ∀ c, S c → c ∈ ct.names) (hTn : ∀ o, T o → o ∈ ot.names)
     (hinjc : ∀ a b, S a → S b → σ a = σ b → a = b) (hinjo : ∀ a b, T a → T b → τ a = τ b → a = b)
     (hS : ∀ e ∈ es, ∀ c ∈ e.cues, S c) (hT : ∀ e ∈ es, ∀ o ∈ e.outcomes, T o)
     (hu : ∀ e ∈ es', e.outcomes.Nodup) :
     ∃ w wn, whModel .r2r cfg.policy eta β₁ β₂ lam (some ct) (some ot) chunk none es = .ok w ∧
-      ndlModel magic version cfg 1 eta eta 1 none es = .ok (wn, es.length) ∧
+      ndlCall magic version cfg 1 eta eta 1 none es = .ok (wn, es.length) ∧
       (∀ o c dlo dlc, T o → S c → dlo ∈ ot.dims → ot.dims.idxOf dlo = τ o →
         dlc ∈ ct.dims → ct.dims.idxOf dlc = σ c → w.get dlo dlc = wn.get o c) := by
   have htabc : ∀ e ∈ es, ∀ c ∈ e.cues, c ∈ ct.names := fun e he c hc => hSn c (hS e he c hc)
   have htabo : ∀ e ∈ es, ∀ o ∈ e.outcomes, o ∈ ot.names := fun e he o ho => hTn o (hT e he o ho)
   obtain ⟨w, hw, hget⟩ := whModel_r2r_get cfg.policy eta β₁ β₂ lam ct ot chunk hc es es' htabc htabo hp
-  obtain ⟨wn, hwn, hgetn⟩ := ndlModel_eq_spec magic version hm hv cfg hper hjob 1 eta eta 1 es es' hp hfit
+  obtain ⟨wn, hwn, hgetn⟩ := ndlCall_eq_spec magic version hm hv cfg 1 eta eta 1 es es' hne hcfg hp hfit
   have hS' := applyPolicyAll_cues cfg.policy es es' hp S hS
   have hT' := applyPolicyAll_outcomes cfg.policy es es' hp T hT
   refine ⟨w, wn, hw, hwn, ?_⟩
